@@ -3,6 +3,11 @@
 #pragma once
 #include <ArduinoJson.h>
 
+#include <istream>
+#include <sstream>
+#include <streambuf>
+#include <string_view>
+
 #include "common.hpp"
 #include "gen.hpp"
 #include "ledger_alloc.hpp"
@@ -281,6 +286,127 @@ inline void judgeDestinations(Ctx& C, const std::string& bytes) {
   }
 }
 
+// the same bytes through the other ways of handing them to deserializeMsgPack: the code and the document may not depend on it
+struct OneByteBuf : std::streambuf {  // an istream source that never has more than one byte available
+  const std::string& s;
+  size_t pos = 0;
+  char cur = 0;
+  explicit OneByteBuf(const std::string& str) : s(str) {}
+  int_type underflow() override {
+    if (pos >= s.size()) return traits_type::eof();
+    cur = s[pos++];
+    setg(&cur, &cur, &cur + 1);
+    return traits_type::to_int_type(cur);
+  }
+  std::streamsize showmanyc() override { return 0; }
+};
+struct ByteReader {
+  const std::string& s;
+  size_t pos = 0;
+  int read() { return pos < s.size() ? (unsigned char)s[pos++] : -1; }
+  size_t readBytes(char* d, size_t n) {
+    size_t k = 0;
+    while (k < n && pos < s.size()) d[k++] = s[pos++];
+    return k;
+  }
+};
+
+inline void judgeSources(Ctx& C, const std::string& bytes, bool wellFormed) {
+  auto observe = [](JsonDocument& doc, DeserializationError e) { return std::string(e.c_str()) + "|" + obsReal(doc.as<JsonVariantConst>()); };
+  std::string ref;
+  {
+    JsonDocument doc;
+    ref = observe(doc, deserializeMsgPack(doc, bytes.data(), bytes.size()));
+  }
+  auto cmp = [&](const char* kind, const std::string& got) {
+    if (got != ref) C.failKey("in:msgpack:" + hex(bytes).substr(0, 600) + "|source=" + kind, "msgpack-source", "differs from the pointer+size source: " + got.substr(0, 120) + " vs " + ref.substr(0, 120));
+  };
+  { JsonDocument doc; cmp("std::string", observe(doc, deserializeMsgPack(doc, bytes))); }
+  { JsonDocument doc; std::istringstream in(bytes); cmp("istringstream", observe(doc, deserializeMsgPack(doc, in))); }
+  { JsonDocument doc; OneByteBuf b(bytes); std::istream in(&b); cmp("istream-one-byte", observe(doc, deserializeMsgPack(doc, in))); }
+  { JsonDocument doc; ByteReader r{bytes}; cmp("custom-reader", observe(doc, deserializeMsgPack(doc, r))); }
+  { JsonDocument doc; cmp("uint8_t*", observe(doc, deserializeMsgPack(doc, reinterpret_cast<const uint8_t*>(bytes.data()), bytes.size()))); }
+  { JsonDocument doc; std::string_view sv(bytes); cmp("string_view", observe(doc, deserializeMsgPack(doc, sv))); }
+  if (wellFormed) {
+    // sources without a length: an exactly-sized heap block (any read past the object is an ASan report)
+    char* block = static_cast<char*>(malloc(bytes.size() ? bytes.size() : 1));
+    memcpy(block, bytes.data(), bytes.size());
+    { JsonDocument doc; cmp("const char*", observe(doc, deserializeMsgPack(doc, static_cast<const char*>(block)))); }
+    free(block);
+    {
+      // a variant as the source: it hands out its string as a zero-terminated pointer (the carrier needs the terminator to
+      // take the string; the decoder must not stop at the 0x00 bytes inside the object)
+      std::string z = bytes;
+      JsonDocument carrier, doc;
+      carrier["payload"] = z.c_str();  // linked
+      cmp("JsonVariantConst", observe(doc, deserializeMsgPack(doc, carrier["payload"].as<JsonVariantConst>())));
+      JsonDocument doc2;
+      cmp("MemberProxy", observe(doc2, deserializeMsgPack(doc2, carrier["payload"])));
+    }
+  }
+}
+
+// containers with many entries and nests up to the limit: the nesting limit counts levels, not siblings; counts with a
+// non-zero high byte; natural array16 / map16 headers
+inline void wideAndDeep(Ctx& C) {
+  auto scalars = [](size_t n, bool map) {
+    MValue m = map ? MValue::object() : MValue::array();
+    for (size_t i = 0; i < n; i++) {
+      if (map) m.o.emplace_back("k" + std::to_string(i), MValue::integer(i128(i % 100)));
+      else m.a.push_back(MValue::integer(i128(i % 100)));
+    }
+    return m;
+  };
+  MValue emptyArr = MValue::array(), oneObj = MValue::object();
+  oneObj.o.emplace_back("k", MValue::boolean(true));
+  for (size_t n : std::vector<size_t>{3, 9, 10, 11, 15, 16, 17, 255, 256, 257}) {
+    for (int map = 0; map < 2; map++) {
+      std::vector<size_t> ks;
+      if (n <= 17) for (size_t k = 0; k < n; k++) ks.push_back(k);
+      else ks = {0, n / 2, n - 1};
+      for (size_t k : ks) {
+        for (int inner = 0; inner < 3; inner++) {
+          if (!C.take()) continue;
+          MValue m = scalars(n, map != 0);
+          MValue in = inner == 0 ? emptyArr : inner == 1 ? oneObj : scalars(n <= 17 ? n : 3, map == 0);
+          if (map) m.o[k].second = in; else m.a[k] = in;
+          std::string bytes = refmp::encode(m);
+          C.begin("wide:n=" + std::to_string(n) + (map ? "|map" : "|array") + "|k=" + std::to_string(k) + "|inner=" + std::to_string(inner));
+          C.nontrivial();
+          judge(C, bytes, "wide", true);
+          if (k == 0 || k + 1 == n) judgeSources(C, bytes, true);
+          C.end();
+        }
+      }
+    }
+  }
+  // pure and mixed nests of every depth up to two beyond the default limit, with siblings in front of the nested entry
+  for (int depth = 1; depth <= ARDUINOJSON_DEFAULT_NESTING_LIMIT + 2; depth++) {
+    for (int style = 0; style < 3; style++) {
+      for (size_t before : std::vector<size_t>{0, 1, 4}) {
+        if (!C.take()) continue;
+        MValue cur = MValue::integer(7);
+        for (int d = depth; d >= 1; d--) {
+          bool arr = style == 0 || (style == 2 && (d & 1));
+          MValue c = arr ? MValue::array() : MValue::object();
+          for (size_t i = 0; i < before; i++) {
+            if (arr) c.a.push_back(MValue::integer(i128(i)));
+            else c.o.emplace_back("s" + std::to_string(i), MValue::integer(i128(i)));
+          }
+          if (arr) c.a.push_back(cur); else c.o.emplace_back("n", cur);
+          cur = c;
+        }
+        C.begin("nest:depth=" + std::to_string(depth) + "|style=" + std::to_string(style) + "|siblings=" + std::to_string(before));
+        C.nontrivial();
+        judge(C, refmp::encode(cur), "nest", true);
+        C.end();
+      }
+    }
+  }
+  C.bound("arrays and maps of 3 9 10 11 15 16 17 255 256 257 scalar entries with entry k (every k for n <= 17, else first/middle/last) replaced by an empty array, a one-member "
+          "map and a container of the same width; array / map / alternating nests of depth 1.." + std::to_string(ARDUINOJSON_DEFAULT_NESTING_LIMIT + 2) + " with 0, 1, 4 siblings in front of the nested entry");
+}
+
 inline void run(Ctx& C) {
   const bool T = C.thorough();
 #if !ARDUINOJSON_USE_LONG_LONG
@@ -313,7 +439,13 @@ inline void run(Ctx& C) {
         return;
       }
       judge(C, bytes, "full[" + desc + "]", true);
-      if (desc == "min" || desc == "max") judgeDestinations(C, bytes);
+      if (desc == "min" || desc == "max") {
+        judgeDestinations(C, bytes);
+        judgeSources(C, bytes, true);
+        // the proper prefixes through the sources that know their length
+        if (bytes.size() <= 40)
+          for (size_t p = 0; p < bytes.size(); p++) judgeSources(C, bytes.substr(0, p), false);
+      }
       // proper prefixes
       size_t len = bytes.size();
       for (size_t p = 0; p < len; p++) {
@@ -347,12 +479,13 @@ inline void run(Ctx& C) {
     });
     C.end();
   });
+  wideAndDeep(C);
   C.metrics["encodings"] += double(nEnc);
   C.metrics["prefixes"] += double(nPrefix);
   C.metrics["substitutions"] += double(nSubst);
   C.bound("all trees with <= " + std::to_string(N) + " nodes over " + std::to_string(G.leavesTop.size()) + " leaves (" +
           std::to_string(G.leavesDeep.size()) + " below depth " + std::to_string(G.deepFrom) + "), 3 keys with repetition; all encodings with <= " +
-          std::to_string(K) + " non-minimal nodes + the all-maximal one; proper prefixes (all for <= 40 bytes); all 255 substitutions at every position of short encodings; minimal and maximal encodings also into 5 non-fresh destination states (populated, member, element, member / element of an overflowed document); USE_DOUBLE=" +
+          std::to_string(K) + " non-minimal nodes + the all-maximal one; proper prefixes (all for <= 40 bytes); all 255 substitutions at every position of short encodings; minimal and maximal encodings (and their prefixes) also through 6 other source kinds (std::string, string_view, istream, one-byte istream, custom reader, uint8_t*; unbounded const char* and variant sources for complete objects) and into 5 non-fresh destination states (populated, member, element, member / element of an overflowed document); USE_DOUBLE=" +
           std::to_string(ARDUINOJSON_USE_DOUBLE));
 }
 }  // namespace ix_msgpack
